@@ -247,6 +247,12 @@ def run(ck):
     # ---- C05.4 seeds
     seeds(ck, "C05.4")
     seeds_over_all_references(ck, "C05.9")
+    ck.clause("C05.11", "the per-correlation pre-selection keeps the highest peaks (as C16.1): a seed that is dropped there can never "
+                        "become the record, however good its alignment would be")
+    from ..report import RuleView as _RV05
+    from . import c16 as _c16
+    _c16.run(_RV05(ck, {"C16.1": "C05.11"}, only_constructs=("createPeaks",)))
+    refined_seeds(ck, "C05.12")
     from .c08 import aliased_lists
     aliased_lists(ck, "C05.10")      # a filtered (one-per-query) list extended in place holds several records of one query again
 
@@ -451,6 +457,65 @@ def seeds_over_all_references(ck, rule):
                          required=f"chain.from_iterable(__getPrimaryCorrelations(r, query) for r in {params[0]})")
         else:
             raise AnalysisError(f"{w}: what selectPeaks is applied to is not recognised: {T.show(arg)[:200] if arg else None}")
+
+
+def refined_seeds(ck, rule):
+    """every seed the selection hands back is refined and aligned: what the worker walks when it refines is the selection's result
+    itself - not a subset of it (a 'these two are the same anyway' filter removes a candidate that was never built)"""
+    from ..rules.common import parallel_map_site, private_anchor, path_terms
+    ctx = ck.ctx
+    ck.clause(rule, "every selected seed is refined and aligned: nothing is dropped between the selection and the refinement")
+    worker = parallel_map_site(ctx)[4]
+    refine = private_anchor(ctx, "_WorkflowCoordinator", "__getSecondaryCorrelation", "_WorkflowCoordinator.execute", calls=("refine",))
+    n = 0
+    for pa in explore(ck, worker, unroll=(0, 1)):
+        for t, facts, node, kind in path_terms(pa):
+            for x in T.subterms(t):
+                if x[0] == "comp" and x[2][0] == "app" and x[2][1] == refine.qualname and len(x[3]) == 1:
+                    it, ifs = x[3][0]
+                    while it[0] == "call" and it[1] in ("enumerate", "list", "tuple", "iter") and it[2]:
+                        it = it[2][0]
+                    n += 1
+                    w = where(worker, node)
+                    direct = it[0] == "app" and it[1].endswith("PeaksSelector.selectPeaks") and not ifs
+                    if direct:
+                        ck.ok(rule, short(worker) + ":refined", w, "the refinement walks the selection's result", T.show(it)[:120])
+                    elif any(y[0] == "app" and y[1].endswith("PeaksSelector.selectPeaks") for y in T.subterms(it)) or ifs:
+                        ck.violation(rule, short(worker) + ":refined", w,
+                                     "the seeds that are refined are a subset of the seeds that were selected: a selected seed is dropped "
+                                     "before its candidate alignment is built (seeds at a similar coordinate may lie on different "
+                                     "references or strands)", found=T.show(x[3][0][0])[:200] + (" if ..." if ifs else ""),
+                                     required="[refine(p, i) for i, p in enumerate(selectPeaks(...))]")
+                    else:
+                        # the selection's result went through a helper first: a helper that appends elements of its parameter
+                        # under a condition hands back a subset
+                        import ast as _ast
+                        for call in [c for c in _ast.walk(worker.node) if isinstance(c, _ast.Call)]:
+                            inner = [c2 for a in call.args for c2 in _ast.walk(a) if isinstance(c2, _ast.Call)
+                                     and isinstance(c2.func, _ast.Attribute) and c2.func.attr == "selectPeaks"]
+                            if not inner:
+                                continue
+                            for c0 in ctx.cg.resolve_call(worker, call):
+                                if c0.kind != "fn" or not c0.fn.call_params():
+                                    continue
+                                prm0 = c0.fn.call_params()[0].name
+                                for loop in [l for l in _ast.walk(c0.fn.node) if isinstance(l, _ast.For)
+                                             and isinstance(l.iter, _ast.Name) and l.iter.id == prm0]:
+                                    cond_append = any(isinstance(i0, _ast.If) and any(
+                                        isinstance(y, _ast.Call) and isinstance(y.func, _ast.Attribute) and y.func.attr == "append"
+                                        for y in _ast.walk(i0)) for i0 in _ast.walk(loop))
+                                    if cond_append:
+                                        ck.violation(rule, short(worker) + ":refined", w,
+                                                     f"the selected seeds pass through `{short(c0.fn)}`, which keeps an element of its "
+                                                     "argument only under a condition: a selected seed can be dropped before its candidate "
+                                                     "alignment is built (seeds at a similar coordinate may lie on different references or "
+                                                     "strands)", found=_ast.unparse(call)[:160],
+                                                     required="[refine(p, i) for i, p in enumerate(selectPeaks(...))]")
+                                        return
+                        raise AnalysisError(f"{w}: what the refinement walks is not recognised: {T.show(it)[:160]}")
+                    return
+    if n == 0:
+        raise AnalysisError(f"{worker.where}: the refinement of the selected seeds was not found in the worker")
 
 
 def seeds(ck, rule):
